@@ -37,7 +37,7 @@ func (fr *Frame) instr(ins ssa.Instruction) {
 		case *types.Slice:
 			sl := fr.val(x.X)
 			enc.oblige("safety:index", fr.where(x), "index out of range", nil, pc, And(Le(IntLit(0), idx), Lt(idx, A("s_len", sl))))
-			fr.lvals[x] = &LVal{Kind: lvElem, Base: A("s_base", sl), Index: Add(A("s_off", sl), idx), Ty: t.Elem()}
+			fr.lvals[x] = &LVal{Kind: lvElem, Base: A("s_base", sl), Index: Sidx(A("s_off", sl), idx), Ty: t.Elem()}
 		case *types.Pointer:
 			at := t.Elem().Underlying().(*types.Array)
 			ref := fr.val(x.X)
